@@ -455,8 +455,13 @@ def run(res, ctx):
                     # the known class is about balances that are themselves ROUNDED: when every share balance of the
                     # exact run is a 28-digit decimal (6 shares through 1-for-3 are exactly 2) nothing excuses a
                     # different decision
+                    # ... (6 shares through 1-for-3 are exactly 2) - and likewise when the decision of the MODEL under
+                    # rust_decimal rounding is not the implementation's: then rounding of the modelled arithmetic
+                    # does not explain the difference (a look-ahead through such a split rounds too, with decimal balances)
                     rounded_balance = any(rates_fit(v) != v for d_ in xs["deltas"] for v in (d_["post"][0], d_["post"][1]) if v is not None)
-                    if nonterminating_split(r["case"]) and rounded_balance and "split-residue" in known_ids:
+                    md_ = r["dec"]["secs"].get(s) if r["dec"].get("status") in ("ok", "panic") and "secs" in r["dec"] else None
+                    dec_explains = md_ is not None and list(md_["stop"][:2]) == list(so["stop"][:2]) and len(md_["deltas"]) == len(so["deltas"])
+                    if nonterminating_split(r["case"]) and (rounded_balance or dec_explains) and "split-residue" in known_ids:
                         known_hit["split-residue"] += 1
                     else:
                         res.violation("failing-input", what, {"input": r["hc"], "security": sname,
